@@ -1,3 +1,5 @@
+\* Base configuration of the frame machine.  bin/check derives the per-property
+\* configurations from it by overriding constants (table in lib/frame.py).
 SPECIFICATION Spec
 CONSTANTS
   MaxInstr = 2
@@ -7,6 +9,8 @@ CONSTANTS
   CallKinds = {"CALL", "CALLCODE", "DELEGATECALL", "STATICCALL"}
   Targets = {"a", "b", "n", "p"}
   Values = {0, 1}
+  Slots = {0}
+  SVals = {1, 2}
   ArgLens = {1}
   Overs = {FALSE}
   InitProgs = {"stop", "revert"}
@@ -20,11 +24,11 @@ CONSTANTS
   Eip158 = TRUE
   Cancun = FALSE
   Berlin = TRUE
-  MaxDepth = 2
+  MaxDepth = 8
   DevPreJPNoSettle = FALSE
   DevEmptyDataFails = FALSE
   DevDataAliased = FALSE
   DevCtxNil = FALSE
-INVARIANTS Emit
-
+INVARIANTS TypeOK TreeWF RestClosed OpenChain Atomicity RefusedUntouched JPShape JPLifo RunHasPre PostOnce JPOffSilent JPOnlyCode BalIdxValid ChgIdxValid EvBalanced TransientFresh NoCrash Emit
+PROPERTIES InputsStable
 CHECK_DEADLOCK FALSE
